@@ -332,3 +332,17 @@ def gen_script(rng, knobs):
   if rng.random() < 0.7:
     script += [["gap", rng.choice([30, 90])], ["ctl", "EDM"], ["gap", 20]]
   return script
+
+
+def protocol_file(rng):
+  """An SCC file from the protocol grammars over a perturbing channel, as bytes: the well-formed streams that the
+  storage faults of C18 are applied to (the odd sequences of producers/text.py cover the unprotocolled ones)."""
+  styles = rng.choice([["pop"], ["roll"], ["paint"], ["pop", "roll"], ["pop", "paint"], ["pop", "roll", "paint"]])
+  df = rng.random() < 0.4
+  knobs = {"styles": styles, "captions": rng.randint(1, 6), "switch": rng.choice([0.0, 0.5]), "enm": rng.choice([0.0, 0.5, 1.0]),
+           "unclean": rng.choice([0.0, 1.0]), "df": df, "start": rng.choice([0, 1798, 17982, 107892, rng.randrange(0, 200000)])}
+  chan = {"double": rng.random() < 0.7, "null": rng.choice([0.0, 0.1]), "ch2": rng.choice([0.0, 0.2]), "parity_off": rng.choice([0.0, 0.5]),
+          "line_len": rng.choice([6, 20, 1000]), "split": rng.choice([0.0, 0.5]), "rng": rng}
+  script = gen_script(rng, knobs)
+  text = transmit(script, chan, knobs["start"], df)[0]
+  return text.encode("utf-8")
